@@ -39,7 +39,7 @@ THEOREMS = ["ESV.C04." + t for t in [
     # numbers, position marks, dungeon mode
     "int_roundtrip", "int_bases", "int_zeros", "fixed_roundtrip", "fixed_normal_form", "fixed_empty_fraction_counterexample",
     "posarg_roundtrip", "posarg_exact_iff", "posmark_roundtrip", "posmark_name_counterexample", "posarg_leading_zero_fraction",
-    "dmode_roundtrip", "dmode_values",
+    "dmode_roundtrip", "dmode_values", "dmode_other",
 ]]
 
 DM = ["DM_CLOSE", "DM_OPEN", "DM_REQUEST", "DM_OPEN_REQUEST"]
@@ -808,7 +808,8 @@ def run(run: core.Run) -> int:
             p = gen_param(r, kind)
             ctx = r.choice(CTX_FOR[kind])
             if ctx == "dmode":
-                p = {"t": "int", "v": r.choice([0, 1, 2, 3])}
+                # the four modes, and numbers that are not a mode (they stand for themselves)
+                p = {"t": "int", "v": r.choice([0, 1, 2, 3, 0, 1, 2, 3, 4, 7, -1, 255])}
             e2e.append({"param": p, "ctx": ctx, "depth": r.choice([0, 0, 1, 2, 3, 4]), "dec": r.choice(["exps", "exps", "ssbs"])})
         eres = _pool_map(pool, "harness.impl_lit:e2e_cases", e2e, 60, 300)
         lreq: list[dict] = []
